@@ -24,10 +24,10 @@ enum { K_ARGB, K_565, K_C8, K_LIN, K_RAD, K_CON, NKINDS };
 static const char *KINDN[NKINDS] = { "bits-a8r8g8b8", "bits-r5g6b5", "bits-c8-indexed", "linear-gradient", "radial-gradient", "conical-gradient" };
 #define IS_BITS(k) ((k) <= K_C8)
 
-enum { F_XF, F_FIL, F_REP, F_CLIP, F_CSRC, F_CCL, F_AMAP, F_CA, F_ACC, F_DITH, F_DOFF, F_PAL, NFIELDS };
-static const int NVAL[NFIELDS] = { 10, 6, 4, 4, 2, 2, 4, 2, 2, 3, 2, 3 };
+enum { F_XF, F_FIL, F_REP, F_CLIP, F_CSRC, F_CCL, F_AMAP, F_CA, F_ACC, F_DITH, F_DOFF, F_PAL, F_PAST, NFIELDS };   /* F_PAST: an episode in the image's life that leaves none of its properties changed */
+static const int NVAL[NFIELDS] = { 10, 6, 4, 4, 2, 2, 4, 2, 2, 3, 2, 3, 3 };
 static const char *FIELDN[NFIELDS] = { "set_transform", "set_filter", "set_repeat", "set_clip_region", "set_source_clipping", "set_has_client_clip",
-                                       "set_alpha_map", "set_component_alpha", "set_accessors", "set_dither", "set_dither_offset", "set_indexed" };
+                                       "set_alpha_map", "set_component_alpha", "set_accessors", "set_dither", "set_dither_offset", "set_indexed", "episode" };
 static const char *VALN[NFIELDS][10] = {
     { "NULL", "identity", "scale2", "rot90", "translate(.5,.5)", "scale(2,1)", "homogeneous(2,2,2)", "translate(.5,1.5)", "translate(1,2)", "rot90+translate(.5,0)(= rot90 except for the translation column)" },
     { "nearest", "bilinear", "convolution3x3", "separable", "convolution3x3-B(same header and first row, other later coefficients)", "separable-B(same header and prefix, other last weights)" },
@@ -38,6 +38,7 @@ static const char *VALN[NFIELDS][10] = {
     { "off", "on" }, { "off", "on(xor-1 read/write callbacks)" },
     { "none", "ordered-bayer-8", "ordered-blue-noise-64" }, { "(0,0)", "(1,2)" },
     { "p1", "p2", "p3(= p1 in the first half of both tables)" },
+    { "none", "served-as-the-alpha-map-of-a-temporary-image(drawn,then-detached,then-that-image-destroyed)", "served-as-the-alpha-map-of-a-temporary-image-that-was-destroyed-while-attached" },
 };
 typedef struct { uint8_t v[NFIELDS]; } ast_t;
 typedef struct { uint8_t f, v; } trans_t;
@@ -190,6 +191,16 @@ static void apply_setter(obj_t *o, int f, int v)
     case F_DITH: { static const pixman_dither_t d[3] = { PIXMAN_DITHER_NONE, PIXMAN_DITHER_ORDERED_BAYER_8, PIXMAN_DITHER_ORDERED_BLUE_NOISE_64 }; pixman_image_set_dither(im, d[v]); break; }
     case F_DOFF: pixman_image_set_dither_offset(im, v ? 1 : 0, v ? 2 : 0); break;
     case F_PAL: pixman_image_set_indexed(im, pal[v]); break;
+    case F_PAST:
+        if (v) {
+            pixman_image_t *owner = pixman_image_create_bits(PIXMAN_a8r8g8b8, LW, LH, NULL, 0);
+            uint32_t one = 0; pixman_image_t *scratch = pixman_image_create_bits(PIXMAN_a8r8g8b8, 1, 1, &one, 4);
+            pixman_image_set_alpha_map(owner, im, 0, 0);             /* ignored by the library if im has an alpha map of its own */
+            pixman_image_composite32(PIXMAN_OP_SRC, owner, NULL, scratch, 0, 0, 0, 0, 0, 0, 1, 1);
+            if (v == 1) pixman_image_set_alpha_map(owner, NULL, 0, 0);
+            pixman_image_unref(owner); pixman_image_unref(scratch);
+        }
+        break;
     }
 }
 
@@ -325,7 +336,7 @@ static uint64_t state_id(const ast_t *s) { uint64_t id = 0; for (int f = NFIELDS
 
 typedef struct {
     int kind;
-    int ntrans; trans_t trans[48];
+    int ntrans; trans_t trans[56];
     int nstates; ast_t *states;
     int nvariants;
     int ncfg; const int *cfgs;
@@ -339,6 +350,7 @@ static void make_trans(space_t *sp, int kind)
     if (IS_BITS(kind)) {
         add_trans(sp, F_FIL, 6); add_trans(sp, F_CLIP, 4); add_trans(sp, F_CSRC, 2); add_trans(sp, F_CCL, 2); add_trans(sp, F_AMAP, 4); add_trans(sp, F_CA, 2);
         add_trans(sp, F_ACC, 2); add_trans(sp, F_DITH, 3); add_trans(sp, F_DOFF, 2);
+        sp->trans[sp->ntrans].f = F_PAST; sp->trans[sp->ntrans++].v = 1; sp->trans[sp->ntrans].f = F_PAST; sp->trans[sp->ntrans++].v = 2;
         if (kind == K_C8) add_trans(sp, F_PAL, 3);
     } else {
         add_trans(sp, F_FIL, 2); add_trans(sp, F_CLIP, 4); add_trans(sp, F_CSRC, 2); add_trans(sp, F_CCL, 2); add_trans(sp, F_CA, 2);
@@ -353,8 +365,8 @@ static void make_universe(space_t *sp, const int *nv)
 }
 
 /* fixed order in which the fresh replica receives its properties (deliberately not the order used on L) */
-static const int FRESH_ORDER[NFIELDS] = { F_ACC, F_CA, F_AMAP, F_DOFF, F_DITH, F_CCL, F_CSRC, F_CLIP, F_REP, F_FIL, F_XF, F_PAL };
-static const int BUILD_ORDER[NFIELDS] = { F_XF, F_FIL, F_REP, F_CLIP, F_CSRC, F_CCL, F_AMAP, F_CA, F_ACC, F_DITH, F_DOFF, F_PAL };
+static const int FRESH_ORDER[NFIELDS] = { F_ACC, F_CA, F_AMAP, F_DOFF, F_DITH, F_CCL, F_CSRC, F_CLIP, F_REP, F_FIL, F_XF, F_PAL, F_PAST };
+static const int BUILD_ORDER[NFIELDS] = { F_XF, F_FIL, F_REP, F_CLIP, F_CSRC, F_CCL, F_AMAP, F_CA, F_ACC, F_DITH, F_DOFF, F_PAL, F_PAST };
 
 static obj_t make_fresh(int kind, const ast_t *s)
 {
@@ -419,7 +431,7 @@ static int exec_history(int kind, int initial_draw, const step_t *st, int n, int
     if (changed) *changed = 0;
     if (initial_draw) { run_probes(&L, &prev, 1); have_prev = 1; hist_add(hist, hcap, "; draw"); }
     for (int k = 0; k < n; k++) {
-        apply_setter(&L, st[k].f, st[k].v); m.v[st[k].f] = st[k].v;
+        apply_setter(&L, st[k].f, st[k].v); if (st[k].f != F_PAST) m.v[st[k].f] = st[k].v;
         hist_add(hist, hcap, "; %s(%s)", FIELDN[st[k].f], VALN[st[k].f][st[k].v]);
         if (!st[k].draw) continue;
         run_probes(&L, &cur, 1);
@@ -555,11 +567,11 @@ int main(int argc, char **argv)
     uint64_t universe_states = 0;
     char label[64];
     /*                           XF FIL REP CLIP CSRC CCL AMAP CA ACC DITH DOFF PAL */
-    static const int U_ARGB_Q[NFIELDS] = { 5, 4, 4, 3, 2, 1, 3, 2, 2, 1, 1, 1 };     /*  5 760: client_clip tied to clip_sources (both off / both on) */
-    static const int U_ARGB_T[NFIELDS] = { 5, 4, 4, 3, 2, 2, 3, 2, 2, 2, 1, 1 };     /* 23 040 */
-    static const int U_565_T[NFIELDS]  = { 5, 2, 4, 2, 2, 1, 3, 1, 2, 3, 2, 1 };     /*  5 760, client_clip tied to clip_sources (set below) */
-    static const int U_C8[NFIELDS]     = { 5, 2, 4, 2, 1, 1, 2, 1, 2, 2, 1, 2 };     /*  1 280 */
-    static const int U_GRAD[NFIELDS]   = { 5, 2, 4, 3, 2, 2, 1, 2, 1, 1, 1, 1 };     /*    960 */
+    static const int U_ARGB_Q[NFIELDS] = { 5, 4, 4, 3, 2, 1, 3, 2, 2, 1, 1, 1, 1 };     /*  5 760: client_clip tied to clip_sources (both off / both on) */
+    static const int U_ARGB_T[NFIELDS] = { 5, 4, 4, 3, 2, 2, 3, 2, 2, 2, 1, 1, 1 };     /* 23 040 */
+    static const int U_565_T[NFIELDS]  = { 5, 2, 4, 2, 2, 1, 3, 1, 2, 3, 2, 1, 1 };     /*  5 760, client_clip tied to clip_sources (set below) */
+    static const int U_C8[NFIELDS]     = { 5, 2, 4, 2, 1, 1, 2, 1, 2, 2, 1, 2, 1 };     /*  1 280 */
+    static const int U_GRAD[NFIELDS]   = { 5, 2, 4, 3, 2, 2, 1, 2, 1, 1, 1, 1, 1 };     /*    960 */
     struct { int kind; const int *u; int variants; } plan[8]; int np = 0;
     plan[np].kind = K_ARGB; plan[np].u = th ? U_ARGB_T : U_ARGB_Q; plan[np].variants = th ? 3 : 1; np++;
     plan[np].kind = K_C8; plan[np].u = U_C8; plan[np].variants = th ? 3 : 1; np++;
